@@ -1,6 +1,10 @@
 """Check registry for vk: aggregates checks/<ID>.py (each defines CHECK = {...})."""
 import glob, importlib.util, os
 
+# Checks that are finished and claimed in MANIFEST.json. A checks/<ID>.py that is still being
+# built is loadable by `vk check <ID>` but not claimed until listed here.
+CLAIMED = ["C03", "C16"]
+
 CHECKS = {}
 _here = os.path.dirname(os.path.abspath(__file__))
 for _p in sorted(glob.glob(os.path.join(_here, "checks", "C*.py"))):
